@@ -24,7 +24,8 @@ Next == /\ MNext /\ UNCHANGED <<job, ti>>
         /\ (done' /\ ~done) => PrintT("RES " \o ToString(job) \o "." \o ToString(ti) \o " " \o ToJson([r |-> MOutcome, u |-> Unspecified, ua |-> UnspecifiedAcceptance, lr |-> LeftRecursive # {}, sl |-> StaticLeaderDeviates(Jobs.jobs[job].start)]))
 
 Sem == Parse(Jobs.jobs[job].start)
-Refines == done => LET s == Sem  m == MOutcome IN
+Refines == done => HiddenLeftRecursion \/       \* PegSem does not define recursion hidden behind a nullable call (C03 / C16 proviso)
+                   LET s == Sem  m == MOutcome IN
                    \/ s.k = "fuel" \/ UnspecifiedAcceptance
                    \/ Gen                                              \* the generated-parser flavour follows KF-C02-1/2; see GenRefines
                    \/ StaticLeaderDeviates(Jobs.jobs[job].start)      \* KF-C03-1: decided (and reported) by C03, not here
